@@ -1253,15 +1253,23 @@ def progress(c, facts, b, g, mfacts):
             # every round consumes at least one symbol of a finite input when STEP is not nullable (the same premise as for
             # winnow's own repetitions, examined by C03.progress), and the body touches nothing but the accumulator
             rep_ = None
-            if x["k"] == "while" and fn.module[:1] == ("find_parser",):
+            if x["k"] in ("while", "loop") and fn.module[:1] == ("find_parser",):
+                # a parser template is examined in each of its instances (its own body has parameters where the parsers go)
+                hosts = [fn.key]
+                if fn.key in b.template_fns():
+                    hosts = [k2 for k2, f2 in facts.fns.items() if not f2.test and f2.impl is None and b._thin_wrapper_of(f2, tail_only=True) is fn]
                 try:
-                    reps_ = []
-                    g.walk(b.fn_ir(fn.key), lambda y: reps_.append(y) if y["t"] == "rep" and y.get("from_while") is x else None, follow=False)
-                    rep_ = reps_[0] if reps_ else None
+                    found_all = bool(hosts)
+                    for hk in hosts:
+                        reps_ = []
+                        g.walk(b.fn_ir(hk), lambda y: reps_.append(y) if y["t"] == "rep" and isinstance(y.get("from_while"), dict) and (y["from_while"] is x or (y["from_while"].get("l") == x.get("l") and y["from_while"].get("k") == x["k"] and hk != fn.key)) else None, follow=False)
+                        if not reps_ or any(g.nullable(r_["p"]) or g.opaque_nodes(r_["p"], follow=True) for r_ in reps_):
+                            found_all = False
+                    rep_ = True if found_all else None
                 except F.AnchorMissing:
                     rep_ = None
-            if rep_ is not None and not g.nullable(rep_["p"]) and not g.opaque_nodes(rep_["p"], follow=True):
-                finite.append("%s: while-let over a non-nullable parser step" % fn.key)
+            if rep_ is not None:
+                finite.append("%s: hand-written repetition of a non-nullable parser step" % fn.key)
                 continue
             loops.append("%s:%s" % (fn.key, x["k"]))
     # every `for` is decided on the resolved program: the type handed to IntoIterator::into_iter by the loop's desugaring
